@@ -60,12 +60,12 @@ func (n *Node) Short() string {
 
 // Opts select what Canon drops or rewrites.
 type Opts struct {
-	DropComments  bool
-	DropPadding   bool
-	UnorderedMaps bool
-	ResolveRefs   bool // substitute references by their targets, drop markers
-	RecordsAsMaps bool // records become maps keyed by their record type's keys; record types dropped
-	NumericArraysAsLists bool // typed numeric/bool arrays become lists of numbers (for value-level comparison)
+	DropComments          bool
+	DropPadding           bool
+	UnorderedMaps         bool
+	ResolveRefs           bool // substitute references by their targets, drop markers
+	RecordsAsMaps         bool // records become maps keyed by their record type's keys; record types dropped
+	NumericArraysAsLists  bool // typed numeric/bool arrays become lists of numbers (for value-level comparison)
 	FloatArrayNaNKindOnly bool // NaN elements of float arrays keep only quiet/signalling (text formats cannot carry payloads)
 }
 
